@@ -32,10 +32,11 @@ def r_C09(root):
     # b: driver loop
     drv, wl, rc, uc, ml = RS.driver(root)
     inst += 1
-    conj = [ast.unparse(v).replace(" ", "") for v in (wl.test.values if isinstance(wl.test, ast.BoolOp) and isinstance(wl.test.op, ast.And) else [wl.test])]
+    conj = RS.continue_atoms(drv, wl)
     okb = ("%s>0" % uc) in conj and ("%s>0" % rc) in conj
-    if not okb: out.append(Finding("C09", "C09.b", M, "parse_tree_to_objgraph", ast.unparse(wl.test), "driver loop lacks the progress condition (termination)"))
-    resets = [ast.unparse(s).replace(" ", "") for s in wl.body[:3]]
+    if not okb: out.append(Finding("C09", "C09.b", M, "parse_tree_to_objgraph", ast.unparse(wl.test), "driver loop lacks the progress condition (termination): it goes on only while %s" % sorted(conj)))
+    resets = [ast.unparse(s).replace(" ", "") for s in wl.body[:4]]
+    # a loop whose exit test comes first (`while True: if not (...): break`) resets the counters right after it
     okr = ("%s=0" % rc) in resets and ("%s=0" % uc) in resets
     if not okr: out.append(Finding("C09", "C09.b", M, "parse_tree_to_objgraph", "while body", "counters are not reset at the top of each round"))
     ob("C09", "C09.b", M, "parse_tree_to_objgraph", "while %s" % ast.unparse(wl.test), okb and okr)
